@@ -590,7 +590,10 @@ with_conform(PROPS["C12"], "Lifecycle", "Cleanup", "WaitCond", "Channel", "Ctx",
 PROPS["C12"]["theorems"] += ["BB.LockOrder.no_wait_cycle", "BB.LockOrder.no_deadlock_of_ranked"]
 with_conform(PROPS["C09"], "Exclusive")
 with_conform(PROPS["C10"], "Exclusive", "Generic")
-with_conform(PROPS["C14"], "Generic")
+with_conform(PROPS["C14"], "Generic", "Workers")
+with_conform(PROPS["C15"], "Notifier")
+with_conform(PROPS["C18"], "Retry")
+with_conform(PROPS["C20"], "Attempt")
 with_conform(PROPS["C17"], "Worker")
 with_conform(PROPS["C08"], "Caster")
 with_conform(PROPS["C06"], "PubSub", "Caster")
